@@ -1136,7 +1136,27 @@ impl Visitor<Diagnostic> for LibraryRenderer {
         visit_comma_separated!(self, node.params.iter(), ParamAssignmentKind);
         self.write_ws(")");
 
+        self.write_ws(";");
+        self.newline();
         Ok(())
+    }
+
+    fn visit_named_input(
+        &mut self,
+        node: &dsl::textual::NamedInput,
+    ) -> Result<Self::Value, Diagnostic> {
+        self.visit_id(&node.name)?;
+        self.write_ws(":=");
+        self.visit_expr_kind(&node.expr)
+    }
+
+    fn visit_output(&mut self, node: &dsl::textual::Output) -> Result<Self::Value, Diagnostic> {
+        if node.not {
+            self.write_ws("NOT");
+        }
+        self.visit_id(&node.src)?;
+        self.write_ws("=>");
+        self.visit_variable(&node.tgt)
     }
 
     // 3.3.2.1
